@@ -64,6 +64,15 @@ class C07(XsProp):
         cs = []
         self.expect = {}
         self.refuse = set()
+        # emitting values that are slices of an input: output-length stays the length of output
+        self.emit_len = set()
+        for data, reads in [('|ab cd ef|', ['8 bits emit', '4 bits emit', '3 bits emit']), ('|01 02 03 04|', ['u8 drop 2 bytes emit', '5 bits emit']),
+                            ('[ 255 15 7 ] >bitstr', ['4 bits drop 12 bits emit', '1 bytes emit']), ('|f0 0f|', ['7 bits emit 9 bits emit'])]:
+            for k in range(1, len(reads) + 1):
+                src = '%s open-bitstr %s output-length output length' % (data, ' '.join(reads[:k]))
+                case = 'xs limits 4000 - - | intercept on | eval %s | stack' % hexsrc(src)
+                cs.append(case)
+                self.emit_len.add(case)
         # byte lists with one element that is not a byte: must be refused, whatever its low bits are
         for bad in [256, -1, 300, 2 ** 63, 2 ** 64, 2 ** 64 + 65, 3 * 2 ** 64 + 255, -(2 ** 64) + 7, -(2 ** 127), 2 ** 127 - 1, 2 ** 32 + 1, 2 ** 8 * 3 + 5]:
             for form in ['[ %d ] >bitstr', '[ 1 %d 2 ] >bitstr', '[ [ %d ] ] >bitstr', '[ "a" %d ] >bitstr', '[ 7 [ 8 %d ] ] >bitstr emit output']:
@@ -109,6 +118,13 @@ class C07(XsProp):
         fails, samples = [], []
         n = unal = 0
         for c, o in zip(cases, impl):
+            if c in getattr(self, 'emit_len', ()):
+                n += 1
+                ou = o.split(' | ')
+                sk = [t for t in ou[-1].strip('[] ').split(' ') if t]
+                if ou[-2] != 'ok' or len(sk) < 2 or sk[-1] != sk[-2]:
+                    fails.append(('case: %s\nsource: %s\nresult: %s' % (c, src_of(c)[0], o[:300]), 'output-length is not the length of output'))
+                continue
             if c in getattr(self, 'refuse', ()):
                 n += 1
                 if o.split(' | ')[1] == 'ok':
